@@ -1414,3 +1414,101 @@ B('pkgA_conflict_check_skipped_when_rebinding', ['C01', 'C04'], _CM_COND,
   (R, _CM_CALL_OLD, "        if route is unbound_route:\n            check_middlewares(self.middlewares, src_provides_map)\n"))
 B('pkgA_conflict_check_error_swallowed', ['C04'], 'R04.a',
   (R, _CM_CALL_OLD, "        try:\n            check_middlewares(self.middlewares, src_provides_map)\n        except NameError:\n            pass\n"))
+
+# ------------------------------------------------------------------ round g: core._create_request_inner vs. make_chain's argument sets
+# (the generated caller passes each chain exactly the names make_chain derived as its signature)
+_RN_STR_OLD = "    rn_args_str = _named_arg_str(render_args)\n"
+_EP_STR_OLD = "    ep_args_str = _named_arg_str(endpoint_args)\n"
+_ALL_STR_OLD = "    all_args_str = ','.join(all_args)\n"
+T('pkgA_twin_core_call_names_sorted', ['C01', 'C02', 'C03'],
+  (C, _ALL_STR_OLD, "    all_args_str = ', '.join(sorted(all_args))\n"),
+  (C, _EP_STR_OLD, "    ep_args_str = _named_arg_str(sorted(endpoint_args))\n"),
+  (C, _RN_STR_OLD, "    rn_args_str = _named_arg_str(sorted(render_args))\n"))
+T('pkgA_twin_core_call_names_percent_generator', ['C01', 'C02', 'C03'],
+  (C, _RN_STR_OLD, "    rn_args_str = ', '.join('%s=%s' % (name, name) for name in list(render_args))\n"))
+T('pkgA_twin_core_call_names_format_index', ['C01', 'C02', 'C03'],
+  (C, _EP_STR_OLD, "    ep_args_str = ', '.join(['{0}={0}'.format(name) for name in endpoint_args])\n"))
+B('pkgA_core_render_call_always_passes_context', ['C01'], 'R01.d',
+  (C, _RN_STR_OLD, "    rn_args_str = _named_arg_str(['context'] + [a for a in all_args if a in render_args])\n"))
+B('pkgA_core_render_call_union_with_context', ['C01'], 'R01.d',
+  (C, _RN_STR_OLD, "    rn_args_str = _named_arg_str(set(render_args) | set(['context']))\n"))
+B('pkgA_core_render_call_only_request_args', ['C01'], 'R01.d',
+  (C, _RN_STR_OLD, "    rn_args_str = _named_arg_str([a for a in render_args if a in all_args])\n"))
+B('pkgA_core_render_call_context_written_into_template', ['C01'], 'R01.d',
+  (C, "        resp = render({render_args})\n", "        resp = render(context=context, {render_args})\n"))
+B('pkgA_core_endpoint_call_gets_every_core_arg', ['C01'], 'R01.d',
+  (C, _EP_STR_OLD, "    ep_args_str = _named_arg_str(all_args)\n"))
+B('pkgA_core_def_drops_a_name', ['C01'], 'R01.d',
+  (C, _ALL_STR_OLD, "    all_args_str = ','.join([a for a in all_args if a != '_route'])\n"))
+
+# ------------------------------------------------------------------ round g: check_middlewares' name spaces vs. what make_middleware_chain lets meet
+_CMW_OLD = ("    provided_by = defaultdict(list)\n"
+            "    for source, arg_list in args_dict.items():\n"
+            "        for arg_name in arg_list:\n"
+            "            provided_by[arg_name].append(source)\n"
+            "\n"
+            "    for mw in middlewares:\n"
+            "        check_middleware(mw)\n"
+            "        for arg in mw.provides:\n"
+            "            provided_by[arg].append(mw)\n"
+            "        for arg in mw.endpoint_provides:\n"
+            "            provided_by[arg].append(mw)\n"
+            "        for arg in mw.render_provides:\n"
+            "            provided_by[arg].append(mw)\n"
+            "\n"
+            "    conflicts = [(n, tuple(ps)) for (n, ps) in\n"
+            "                 provided_by.items() if len(ps) > 1]\n")
+_CMW_PER_PHASE = ("    for mw in middlewares:\n"
+                  "        check_middleware(mw)\n"
+                  "    conflicts = []\n"
+                  "    for phase in %s:\n"
+                  "        provided_by = defaultdict(list)\n"
+                  "        for source, arg_list in args_dict.items():\n"
+                  "            for arg_name in arg_list:\n"
+                  "                provided_by[arg_name].append(source)\n"
+                  "        for mw in middlewares:\n"
+                  "%s"
+                  "            for arg in getattr(mw, phase):\n"
+                  "                provided_by[arg].append(mw)\n"
+                  "        for n, ps in provided_by.items():\n"
+                  "            if len(ps) > 1 and (n, tuple(ps)) not in conflicts:\n"
+                  "                conflicts.append((n, tuple(ps)))\n")
+_CMW_TWO_MAPS = ("    provided_by = defaultdict(list)\n"
+                 "    inner_by = defaultdict(list)\n"
+                 "    for source, arg_list in args_dict.items():\n"
+                 "        for arg_name in arg_list:\n"
+                 "            provided_by[arg_name].append(source)\n"
+                 "            inner_by[arg_name].append(source)\n"
+                 "\n"
+                 "    for mw in middlewares:\n"
+                 "        check_middleware(mw)\n"
+                 "        for arg in mw.provides:\n"
+                 "            provided_by[arg].append(mw)\n"
+                 "%s"
+                 "\n"
+                 "    conflicts = [(n, tuple(ps)) for (n, ps) in\n"
+                 "                 list(provided_by.items()) + list(inner_by.items()) if len(ps) > 1]\n")
+# (per-phase rounds that each also hold what is forwarded into that phase: the request provides)
+T('pkgA_twin_conflict_rounds_each_with_request_provides', ['C02'],
+  (C, _CMW_OLD, _CMW_PER_PHASE % ("('endpoint_provides', 'render_provides')",
+                                  "            for arg in mw.provides:\n                provided_by[arg].append(mw)\n")))
+T('pkgA_twin_conflict_map_attribute_table', ['C02'],
+  (C, "        for arg in mw.provides:\n            provided_by[arg].append(mw)\n"
+      "        for arg in mw.endpoint_provides:\n            provided_by[arg].append(mw)\n"
+      "        for arg in mw.render_provides:\n            provided_by[arg].append(mw)\n",
+      "        for attr in ('provides', 'endpoint_provides', 'render_provides'):\n"
+      "            for arg in getattr(mw, attr):\n                provided_by[arg].append(mw)\n"))
+B('pkgA_conflict_rounds_per_phase', ['C02'], 'R02.e',
+  (C, _CMW_OLD, _CMW_PER_PHASE % ("('provides', 'endpoint_provides', 'render_provides')", "")))
+B('pkgA_conflict_two_maps_request_vs_inner_phases', ['C02'], 'R02.e',
+  (C, _CMW_OLD, _CMW_TWO_MAPS % ("        for arg in mw.endpoint_provides:\n            inner_by[arg].append(mw)\n"
+                                 "        for arg in mw.render_provides:\n            inner_by[arg].append(mw)\n")))
+B('pkgA_conflict_two_maps_render_apart', ['C02'], 'R02.e',
+  (C, _CMW_OLD, _CMW_TWO_MAPS % ("        for arg in mw.endpoint_provides:\n            provided_by[arg].append(mw)\n"
+                                 "        for arg in mw.render_provides:\n            inner_by[arg].append(mw)\n")))
+B('pkgA_conflict_round_for_inner_phases_without_preprovided', ['C02'], 'R02.e',
+  (C, _CMW_OLD, (_CMW_PER_PHASE % ("('endpoint_provides', 'render_provides')",
+                                   "            for arg in mw.provides:\n                provided_by[arg].append(mw)\n")).replace(
+      "        for source, arg_list in args_dict.items():\n"
+      "            for arg_name in arg_list:\n"
+      "                provided_by[arg_name].append(source)\n", "")))
